@@ -28,6 +28,14 @@ Theorem C16_link_heading :
 Proof. intros; split; first [ reflexivity | unfold heading_default, heading_given, deg2rad, c_pi, c_180; rnum; ring ]. Qed.
 Print Assumptions C16_link_heading.
 
+(* which heading is converted: an explicitly passed azimuth — whatever its value, 0.0 included — and the
+   ground-track point's azimuth only when none is passed *)
+Theorem C16_link_heading_selection :
+  forall (N : Num) (given : option (T N)) (pt : T N),
+    @heading_choice N given pt = match given with None => @heading_default N pt | Some a => @heading_given N a end.
+Proof. intros; destruct given; reflexivity. Qed.
+Print Assumptions C16_link_heading_selection.
+
 (* pressure level handed to the interpolation, for both wind components; range guard *)
 Theorem C16_link_level :
   forall alt, @level_u RNum alt = @level RNum alt /\ @level_v RNum alt = @level RNum alt.
